@@ -6,8 +6,8 @@ CONSTANTS
   Readers = {0}
   RoundMod = 8
   Fix = {}
-  Record = FALSE
-  R0s = {0, 7}
+  Record = 0
+  R0s = {0, 6}
   GetMins = {1, 3}
   BlockSizes = {1, 2, 3}
   Offsets = {0, 1}
